@@ -188,6 +188,11 @@ func runC13(p *core.Program, r *core.Report) {
 	}
 	for _, s := range sites {
 		info := p.Pkg(s.Rel).TypesInfo
+		// R13.7: Patch stamps the replaced node's location (and type) on the replacement; a
+		// replacement that is an existing sub-tree — not a node built at the site — gets its own
+		// location overwritten with that of the node it replaces
+		r.Check(s.ReplKind != "" && len(s.Fresh) > 0, "R13.7", s.Key+"/replacement is built at the site", p.Pos(s.Call.Pos()), "the replacement is a fresh "+s.ReplKind+" literal",
+			"the replacement `"+eng.ExprStr(s.Repl)+"` is not a node built at the rewrite site: ast.Patch overwrites the location of that existing node with the location of the node it replaces, so a run-time failure of it is reported at the replaced operator's position")
 		for i, cl := range s.Fresh {
 			_, k := nodeLit(nk, info, cl)
 			kn := "?"
@@ -405,6 +410,10 @@ func runC13(p *core.Program, r *core.Report) {
 
 	r.Floor("R13.1", 25)
 	r.Floor("R13.2", 19)
+	r.Floor("R13.7", 19)
+	// R13.8 (= C12 R12.3): every location a token, node or error carries comes from the lexer's
+	// position fields, which must move in lock-step with the byte offset, one rune at a time
+	positionRules(p, r, "R13.8")
 	r.Floor("R13.4", 7)
 	r.Floor("R13.6", 4)
 }
@@ -453,6 +462,8 @@ func c13Controls() []core.Mutant {
 		{Name: "location table keyed by the operand position", File: "compiler/compiler.go", Old: "\tc.locations[current-1] = loc\n", New: "\tc.locations[current] = loc\n", Rule: "R13.6", Construct: "emit/location filed"},
 		{Name: "VM looks the location up with ip", File: "vm/vm.go", Old: "Location: program.Locations[vm.pp],", New: "Location: program.Locations[vm.ip],", Rule: "R13.6", Construct: "vm.(VM).Run"},
 		{Name: "checker error without location", File: "checker/checker.go", Old: "\t\tv.err = &file.Error{\n\t\t\tLocation: node.Location(),\n", New: "\t\tv.err = &file.Error{\n", Rule: "R13.4", Construct: "checker.(visitor).error"},
+		{Name: "string scanner fast path advances the column by a byte count", File: "parser/lexer/lexer.go", Old: "func (l *lexer) scanString(quote rune) (n int) {\n", New: "func (l *lexer) scanString(quote rune) (n int) {\n\tif i := strings.IndexRune(l.input[l.end:], quote); i > 0 && !strings.ContainsAny(l.input[l.end:l.end+i], \"\\\\\\n\") {\n\t\tl.end += i\n\t\tl.loc.Column += i\n\t\tn += i\n\t}\n", Rule: "R13.8", Construct: "scanString"},
+		{Name: "unary plus folded away for any operand", File: "optimizer/fold.go", Old: "\t\tcase \"+\":\n\t\t\tif i, ok := n.Node.(*IntegerNode); ok {", New: "\t\tcase \"+\":\n\t\t\tif _, isInt := n.Node.(*IntegerNode); !isInt {\n\t\t\t\tpatchWithType(n.Node, n.Node.Type())\n\t\t\t\treturn\n\t\t\t}\n\t\t\tif i, ok := n.Node.(*IntegerNode); ok {", Rule: "R13.7", Construct: "fold"},
 		{Name: "inRange comparison loses its location", File: "optimizer/in_range.go", Old: "\t\t\t\t\t\tge.SetLocation(n.Location())\n", New: "", Rule: "R13.2", Construct: "inRange"},
 		{Name: "node stack not popped", File: "compiler/compiler.go", Old: "\tdefer func() {\n\t\tc.nodes = c.nodes[:len(c.nodes)-1]\n\t}()\n", New: "", Rule: "R13.6", Construct: "node stack"},
 	}
